@@ -10,8 +10,9 @@ CONSTANTS Pre,        \* content that is in the file before the follow begins
           Cap,        \* capacity of the delivery queue (100 in the code)
           R,          \* size of the statistics ring (100 in the code)
           Filter,     \* TRUE: regex "a"; FALSE: no filter
-          KF_DropForgotten  \* deviation inherent in the ring: R further lines after a dropped one overwrite its slot, the next
-                            \* delivered line then reports 100 although a line was lost
+          KF_DropForgotten  \* deviation (repaired): R further lines after a dropped one overwrite its slot in the ring, the next
+                            \* delivered line then reports 100 although a line was lost.  The repaired code remembers the drop
+                            \* (stats.dropped) until the next line is transmitted and caps that line's percentage at 99.
 
 VARIABLES opened, openLen, file, rpos, partial, q, ring, pos, nlines, delivered, drops, pendingDrop, hist, badPerc
 vars == <<opened, openLen, file, rpos, partial, q, ring, pos, nlines, delivered, drops, pendingDrop, hist, badPerc>>
@@ -41,8 +42,9 @@ ReadByte == /\ opened /\ rpos < Len(file)
                           rg == [ring EXCEPT ![p2] = [m |-> m, t |-> (m /\ ~full)]]
                       IN /\ partial' = <<>> /\ pos' = p2 /\ nlines' = nlines + 1 /\ ring' = rg
                          /\ IF m /\ ~full
-                              THEN /\ q' = Append(q, [line |-> l, n |-> nlines + 1, perc |-> Perc(rg)])
-                                   /\ badPerc' = (badPerc \/ (pendingDrop /\ Perc(rg) = 100))
+                              THEN LET pc == IF ~KF_DropForgotten /\ pendingDrop /\ Perc(rg) > 99 THEN 99 ELSE Perc(rg)   \* transmittedPerc()
+                                   IN /\ q' = Append(q, [line |-> l, n |-> nlines + 1, perc |-> pc])
+                                      /\ badPerc' = (badPerc \/ (pendingDrop /\ pc >= 100))
                                    /\ pendingDrop' = FALSE /\ drops' = drops
                               ELSE /\ q' = q /\ badPerc' = badPerc
                                    /\ pendingDrop' = (pendingDrop \/ (m /\ full))
@@ -72,4 +74,5 @@ ExactlyOnceInOrder == opened => (IF drops = 0 THEN OutLines = Consumed ELSE (Len
 NumbersRight == \A i \in 1..Len(Out) : Out[i].n >= 1 /\ (i > 1 => Out[i].n > Out[i - 1].n)
 \* a drop is reported: the next delivered line carries a percentage below 100
 DropNoticed == KF_DropForgotten \/ ~badPerc
+NoBadPerc == ~badPerc
 =============================================================================
